@@ -91,7 +91,7 @@ def check_table(ctx: Ctx, case) -> None:
     exp = expected_notes(res, items)
     rc = case
     lines = [S.track_line(it) for it in items]
-    chart, tr = T.parse_track(ctx, res, TEMPO, lines, HEADER, rc,
+    chart, tr = T.parse_track(ctx, res, TEMPO, lines, S.HEADER_LIST[(res * 7 + d + 2 * tap + forced + smode) % 40], rc,
                               fmt=(res * 31 + d) if (res + d + tap) % 4 == 0 else 0)
     if tr is None:
         return
@@ -171,7 +171,19 @@ def _random_tracks(draw, ctx):
     tempo = [[0, draw(st.sampled_from([120000, 60000, 250000, 1000]))]]
     if draw(st.booleans()):
         tempo.append([draw(st.integers(1, max(2, tick))), draw(st.sampled_from([30000, 480000, 120001]))])
-    return {"res": res, "items": items, "tempo": tempo,
+    # star-power phrases and track events between the notes (other event kinds must not matter)
+    extra = []
+    for _ in range(draw(st.integers(0, 3))):
+        t = draw(st.integers(0, max(1, tick)))
+        extra.append([t, "S", 2, draw(st.integers(0, 4 * res))] if draw(st.booleans()) else [t, "E", "solo"])
+    if extra:
+        sp = sorted([e for e in extra if e[1] == "S"], key=lambda e: e[0])
+        te = sorted([e for e in extra if e[1] == "E"], key=lambda e: e[0])
+        merged = sorted([(it[0], 0, k, it) for k, it in enumerate(items)]
+                        + [(it[0], 1, k, it) for k, it in enumerate(sp)]
+                        + [(it[0], 2, k, it) for k, it in enumerate(te)], key=lambda x: (x[0], x[1], x[2]))
+        items = [x[3] for x in merged]
+    return {"res": res, "items": items, "tempo": tempo, "header": draw(st.sampled_from(S.HEADER_LIST)),
             "fmt": draw(st.one_of(st.just(0), st.just(0), st.integers(1, 10 ** 6)))}
 
 
@@ -183,7 +195,8 @@ def check_random(ctx: Ctx, case) -> None:
     res, items = case["res"], case["items"]
     exp = expected_notes(res, items)
     lines = [S.track_line(it) for it in items]
-    chart, tr = T.parse_track(ctx, res, case.get("tempo", TEMPO), lines, HEADER, case, fmt=case.get("fmt", 0))
+    chart, tr = T.parse_track(ctx, res, case.get("tempo", TEMPO), lines, case.get("header", HEADER), case,
+                              fmt=case.get("fmt", 0))
     if tr is None:
         return
     T.compare_notes(ctx, tr, exp, case, {"ticks", "hopo"})
